@@ -200,7 +200,7 @@ class FilReader(Filterbank):
 
         self._file.seek(start * self.samp_stride)
         nreads, lastread = divmod(nsamps, (gulp - skipback))
-        if lastread < skipback:
+        while lastread < skipback:
             nreads -= 1
             lastread = nsamps - (nreads * (gulp - skipback))
         blocks = [
